@@ -1,3 +1,225 @@
-# predicate.py coalescing rules -> gen/PredCoalesce.v   (filled in with C11)
+# predicate.py (Predicate / CompositePredicate decision logic), the delivery test of tracer.py::_emit_event and the
+# composite the rewriter builds per event (ast_rewriter.py)  ->  gen/PredGen.v
+# Straight-line boolean code only; recursion over predicate structures is hand-written in model/Pred.v on top of these.
+import ast
+
+from . import Mismatch, find_class, find_func, need, parse
+
+
+class BoolTr:
+    """boolean expression translator with a caller-supplied table for the leaves"""
+
+    def __init__(self, fname, leaves):
+        self.fname = fname
+        self.leaves = leaves      # list of (matcher(expr) -> gallina | None)
+
+    def tr(self, e):
+        for m in self.leaves:
+            g = m(e)
+            if g is not None:
+                return g
+        if isinstance(e, ast.Constant) and isinstance(e.value, bool):
+            return "true" if e.value else "false"
+        if isinstance(e, ast.IfExp):
+            return "(if %s then %s else %s)" % (self.tr(e.test), self.tr(e.body), self.tr(e.orelse))
+        if isinstance(e, ast.BoolOp):
+            op = "orb" if isinstance(e.op, ast.Or) else "andb"
+            out = self.tr(e.values[-1])
+            for v in reversed(e.values[:-1]):
+                out = "(%s %s %s)" % (op, self.tr(v), out)
+            return out
+        if isinstance(e, ast.UnaryOp) and isinstance(e.op, ast.Not):
+            return "(negb %s)" % self.tr(e.operand)
+        need(False, e, "unsupported condition %s" % ast.dump(e)[:120], self.fname)
+
+
+def is_self_attr(e, attr):
+    return isinstance(e, ast.Attribute) and isinstance(e.value, ast.Name) and e.value.id == "self" and e.attr == attr
+
+
+def is_name_attr(e, name, attr):
+    return isinstance(e, ast.Attribute) and isinstance(e.value, ast.Name) and e.value.id == name and e.attr == attr
+
+
+def single_return(fn, fname):
+    body = [s for s in fn.body if not (isinstance(s, ast.Expr) and isinstance(s.value, ast.Constant))]
+    need(len(body) == 1 and isinstance(body[0], ast.Return), fn, "%s: expected a single return statement" % fn.name, fname)
+    return body[0].value
+
+
+def gen_of(e, fname, var="pred", over=None):
+    """`f(<elt> for pred in <iter>)` -> (f, elt, iter)"""
+    need(isinstance(e, ast.Call) and isinstance(e.func, ast.Name) and len(e.args) == 1 and isinstance(e.args[0], ast.GeneratorExp), e, "any/all(... for pred in ...) expected", fname)
+    g = e.args[0]
+    need(len(g.generators) == 1 and not g.generators[0].ifs and isinstance(g.generators[0].target, ast.Name) and g.generators[0].target.id == var, e, "one plain generator expected", fname)
+    return e.func.id, g.elt, g.generators[0].iter
+
+
 def generate(repo):
-    return {}
+    mod, fname = parse(repo, "pyccolo/predicate.py")
+    P = find_class(mod, "Predicate", fname)
+    C = find_class(mod, "CompositePredicate", fname)
+    L = ["(* GENERATED from pyccolo/predicate.py, tracer.py::_emit_event and ast_rewriter.py -- do not edit *)",
+         "From Coq Require Import List Bool Arith.", "Import ListNotations.", "",
+         "Inductive ident : Set := IsTrue | IsFalse | IsOther.     (* `pred is Predicate.TRUE` / `is Predicate.FALSE` / neither *)",
+         "Definition ident_eqb (a b : ident) : bool := match a, b with IsTrue, IsTrue | IsFalse, IsFalse | IsOther, IsOther => true | _, _ => false end.",
+         "Inductive coalesced : Set := CTrue | CFalse | CCreate (is_any : bool).", ""]
+
+    # ---- Predicate.__init__ default of `static`, and the two singletons
+    inits = [n for n in P.body if isinstance(n, ast.FunctionDef) and n.name == "__init__"
+             and not any(isinstance(d, ast.Name) and d.id == "overload" for d in n.decorator_list)]
+    need(len(inits) == 1, P, "one non-overload Predicate.__init__", fname)
+    init = inits[0]
+    names = [a.arg for a in init.args.args]
+    need("static" in names, init, "Predicate.__init__ has a `static` parameter", fname)
+    dflt = init.args.defaults[len(init.args.defaults) - (len(names) - names.index("static"))]
+    need(isinstance(dflt, ast.Constant) and isinstance(dflt.value, bool), init, "static default is a bool literal", fname)
+    sing = {}
+    for n in mod.body:
+        if isinstance(n, ast.Assign) and len(n.targets) == 1 and is_name_attr(n.targets[0], "Predicate", "TRUE") or \
+                isinstance(n, ast.Assign) and len(n.targets) == 1 and is_name_attr(n.targets[0], "Predicate", "FALSE"):
+            v = n.value
+            need(isinstance(v, ast.Call) and isinstance(v.func, ast.Name) and v.func.id == "Predicate" and len(v.args) == 1 and not v.keywords
+                 and isinstance(v.args[0], ast.Lambda) and isinstance(v.args[0].body, ast.Constant) and isinstance(v.args[0].body.value, bool),
+                 n, "Predicate.TRUE/FALSE = Predicate(lambda *_: <bool>)", fname)
+            sing[n.targets[0].attr] = v.args[0].body.value
+    need(sing == {"TRUE": True, "FALSE": False}, mod, "Predicate.TRUE is constantly True and Predicate.FALSE constantly False", fname)
+    L.append("Definition singleton_static : bool := %s.     (* Predicate.TRUE / FALSE are built with the default `static` *)" % ("true" if dflt.value else "false"))
+
+    # ---- Predicate.dynamic_call
+    e = single_return(find_func(P.body, "dynamic_call", fname), fname)
+    bt = BoolTr(fname, [lambda x: "static" if is_self_attr(x, "static") else None,
+                        lambda x: "callv" if isinstance(x, ast.Call) and isinstance(x.func, ast.Name) and x.func.id == "self" and len(x.args) == 1 and not x.keywords else None])
+    L.append("Definition base_dynamic_call (static callv : bool) : bool := %s." % bt.tr(e))
+
+    # ---- CompositePredicate.__init__
+    cinit = find_func(C.body, "__init__", fname)
+    got = {}
+    for s in cinit.body:
+        if isinstance(s, ast.Assign) and len(s.targets) == 1 and isinstance(s.targets[0], ast.Attribute) and isinstance(s.targets[0].value, ast.Name) and s.targets[0].value.id == "self":
+            got[s.targets[0].attr] = s.value
+    need(set(got) >= {"base_predicates", "dynamic_base_predicates", "static", "reducer"}, cinit, "CompositePredicate.__init__ sets base_predicates, dynamic_base_predicates, static, reducer", fname)
+    d = got["dynamic_base_predicates"]
+    need(isinstance(d, ast.ListComp) and isinstance(d.elt, ast.Name) and len(d.generators) == 1 and len(d.generators[0].ifs) == 1
+         and isinstance(d.generators[0].iter, ast.Name) and d.generators[0].iter.id == "base_predicates", cinit, "[pred for pred in base_predicates if <cond>]", fname)
+    v = d.elt.id
+    bt = BoolTr(fname, [lambda x: "part_static" if is_name_attr(x, v, "static") else None])
+    L.append("Definition comp_is_dynamic_part (part_static : bool) : bool := %s." % bt.tr(d.generators[0].ifs[0]))
+    st = got["static"]
+    need(isinstance(st, ast.Compare) and len(st.ops) == 1 and isinstance(st.ops[0], ast.Eq) and isinstance(st.left, ast.Call) and isinstance(st.left.func, ast.Name)
+         and st.left.func.id == "len" and is_self_attr(st.left.args[0], "dynamic_base_predicates") and isinstance(st.comparators[0], ast.Constant) and st.comparators[0].value == 0,
+         cinit, "self.static = len(self.dynamic_base_predicates) == 0", fname)
+    L.append("Definition comp_static (ndyn : nat) : bool := Nat.eqb ndyn 0.")
+    need(isinstance(got["reducer"], ast.Name) and got["reducer"].id == "reducer", cinit, "self.reducer = reducer", fname)
+
+    # ---- CompositePredicate.__call__ : self.reducer(pred(node) for pred in predicates), predicates defaulting to all parts
+    call = find_func(C.body, "__call__", fname)
+    ret = [s for s in call.body if isinstance(s, ast.Return)]
+    need(len(ret) == 1, call, "__call__ has one return", fname)
+    r = ret[0].value
+    need(isinstance(r, ast.Call) and is_self_attr(r.func, "reducer") and len(r.args) == 1 and isinstance(r.args[0], ast.GeneratorExp), call, "return self.reducer(<generator>)", fname)
+    g = r.args[0]
+    need(len(g.generators) == 1 and not g.generators[0].ifs and isinstance(g.generators[0].iter, ast.Name) and g.generators[0].iter.id == "predicates", call, "... for pred in predicates", fname)
+    pv = g.generators[0].target.id
+    if isinstance(g.elt, ast.Call) and isinstance(g.elt.func, ast.Name) and g.elt.func.id == pv and len(g.elt.args) == 1 and not g.elt.keywords:
+        mode = "true"
+    elif isinstance(g.elt, ast.Call) and is_name_attr(g.elt.func, pv, "dynamic_call") and len(g.elt.args) == 1:
+        mode = "false"
+    else:
+        need(False, call, "element of the reduction is pred(node) or pred.dynamic_call(node)", fname)
+    L.append("Definition comp_parts_use_full_call : bool := %s.     (* the reduction evaluates pred(node) on each part (true) or pred.dynamic_call(node) (false) *)" % mode)
+    dfl = [s for s in call.body if isinstance(s, ast.Assign) and isinstance(s.targets[0], ast.Name) and s.targets[0].id == "predicates"]
+    need(len(dfl) == 1 and isinstance(dfl[0].value, ast.IfExp) and is_self_attr(dfl[0].value.body, "base_predicates"), call, "predicates defaults to self.base_predicates", fname)
+
+    # ---- CompositePredicate.dynamic_call
+    e = single_return(find_func(C.body, "dynamic_call", fname), fname)
+
+    def self_call(x):
+        if isinstance(x, ast.Call) and isinstance(x.func, ast.Name) and x.func.id == "self" and len(x.args) == 1:
+            if not x.keywords:
+                return "call_all"
+            if len(x.keywords) == 1 and x.keywords[0].arg == "predicates" and is_self_attr(x.keywords[0].value, "dynamic_base_predicates"):
+                return "call_dyn"
+        return None
+    bt = BoolTr(fname, [lambda x: "static" if is_self_attr(x, "static") else None, self_call])
+    L.append("Definition comp_dynamic_call (static call_all call_dyn : bool) : bool := %s." % bt.tr(e))
+    L.append("     (* call_all = self(node) over all parts, call_dyn = self(node, predicates=the dynamic parts) *)")
+
+    # ---- any / all coalescing
+    def coalesce(name):
+        fn = find_func(C.body, name, fname)
+        body = [s for s in fn.body if not (isinstance(s, ast.Expr) and isinstance(s.value, ast.Constant))]
+
+        def leaf(x):
+            if isinstance(x, ast.Compare) and len(x.ops) == 1 and isinstance(x.ops[0], ast.Eq) and isinstance(x.left, ast.Call) and isinstance(x.left.func, ast.Name) \
+                    and x.left.func.id == "len" and isinstance(x.left.args[0], ast.Name) and x.left.args[0].id == "base_predicates" \
+                    and isinstance(x.comparators[0], ast.Constant) and x.comparators[0].value == 0:
+                return "(Nat.eqb (length ids) 0)"
+            if isinstance(x, ast.Call) and isinstance(x.func, ast.Name) and x.func.id in ("any", "all") and len(x.args) == 1 and isinstance(x.args[0], ast.GeneratorExp):
+                f, elt, it = gen_of(x, fname)
+                need(isinstance(it, ast.Name) and it.id == "base_predicates", x, "... for pred in base_predicates", fname)
+                need(isinstance(elt, ast.Compare) and len(elt.ops) == 1 and isinstance(elt.ops[0], ast.Is) and isinstance(elt.left, ast.Name) and elt.left.id == "pred"
+                     and (is_name_attr(elt.comparators[0], "Predicate", "TRUE") or is_name_attr(elt.comparators[0], "Predicate", "FALSE")), x, "pred is Predicate.TRUE/FALSE", fname)
+                which = "IsTrue" if elt.comparators[0].attr == "TRUE" else "IsFalse"
+                return "(%s (ident_eqb %s) ids)" % ("existsb" if f == "any" else "forallb", which)
+            return None
+        bt = BoolTr(fname, [leaf])
+
+        def retv(x):
+            if is_name_attr(x, "Predicate", "TRUE"):
+                return "CTrue"
+            if is_name_attr(x, "Predicate", "FALSE"):
+                return "CFalse"
+            if isinstance(x, ast.Call) and is_name_attr(x.func, "cls", "_create") and len(x.args) == 1 and isinstance(x.args[0], ast.Name) and x.args[0].id == "base_predicates" \
+                    and len(x.keywords) == 1 and x.keywords[0].arg == "reducer" and isinstance(x.keywords[0].value, ast.Name) and x.keywords[0].value.id in ("any", "all"):
+                return "(CCreate %s)" % ("true" if x.keywords[0].value.id == "any" else "false")
+            need(False, x, "return Predicate.TRUE / Predicate.FALSE / cls._create(base_predicates, reducer=any|all)", fname)
+        out = None
+        need(isinstance(body[-1], ast.Return), fn, "%s ends with a return" % name, fname)
+        out = retv(body[-1].value)
+        for s in reversed(body[:-1]):
+            need(isinstance(s, ast.If) and not s.orelse and len(s.body) == 1 and isinstance(s.body[0], ast.Return), s, "if <cond>: return <const>", fname)
+            out = "if %s then %s else %s" % (bt.tr(s.test), retv(s.body[0].value), out)
+        return "Definition %s_coalesce (ids : list ident) : coalesced := %s." % (name, out)
+    L.append(coalesce("any"))
+    L.append(coalesce("all"))
+    cr = find_func(C.body, "_create", fname)
+    crr = [s for s in cr.body if isinstance(s, ast.Return)]
+    need(len(crr) == 1 and isinstance(crr[0].value, ast.Call) and isinstance(crr[0].value.func, ast.Name) and crr[0].value.func.id == "cls", cr, "_create returns cls(base_predicates, reducer=reducer)", fname)
+
+    # ---- tracer.py::_emit_event : the per-handler delivery test
+    tmod, tname = parse(repo, "pyccolo/tracer.py")
+    T = find_class(tmod, "_InternalBaseTracer", tname)
+    em = find_func(T.body, "_emit_event", tname)
+    tests = []
+    for n in ast.walk(em):
+        if isinstance(n, ast.If) and any(isinstance(x, ast.Attribute) and x.attr == "dynamic_call" for x in ast.walk(n.test)):
+            tests.append(n)
+    need(len(tests) == 1, em, "exactly one test mentioning dynamic_call in _emit_event", tname)
+
+    def dleaf(x):
+        sp = lambda y: isinstance(y, ast.Attribute) and isinstance(y.value, ast.Name) and y.value.id == "spec" and y.attr == "predicate"
+        if isinstance(x, ast.Compare) and len(x.ops) == 1 and isinstance(x.ops[0], ast.Is) and sp(x.left) and is_name_attr(x.comparators[0], "Predicate", "TRUE"):
+            return "is_true"
+        if isinstance(x, ast.Attribute) and x.attr == "static" and sp(x.value):
+            return "static"
+        if isinstance(x, ast.Call) and isinstance(x.func, ast.Attribute) and x.func.attr == "dynamic_call" and sp(x.func.value) and len(x.args) == 1:
+            return "dyn"
+        if isinstance(x, ast.Call) and sp(x.func) and len(x.args) == 1:
+            return "full"
+        return None
+    bt = BoolTr(tname, [dleaf])
+    L.append("Definition deliver_test (is_true static dyn full : bool) : bool := %s." % bt.tr(tests[0].test))
+    L.append("     (* is_true: spec.predicate is Predicate.TRUE; static: .static; dyn: .dynamic_call(node); full: spec.predicate(node) *)")
+    # the handler is called in the `then` branch and skipped (new_ret = None) otherwise
+    need(any(isinstance(x, ast.Call) and isinstance(x.func, ast.Attribute) and x.func.attr == "handler" for s in tests[0].body for x in ast.walk(s)), tests[0], "handler call in the then-branch", tname)
+    need(not any(isinstance(x, ast.Call) and isinstance(x.func, ast.Attribute) and x.func.attr == "handler" for s in tests[0].orelse for x in ast.walk(s)), tests[0], "no handler call in the else-branch", tname)
+
+    # ---- ast_rewriter.py : one composite per event = CompositePredicate.any(<all handlers' predicates of the event>)
+    rmod, rname = parse(repo, "pyccolo/ast_rewriter.py")
+    R = find_class(rmod, "AstRewriter", rname)
+    vis = find_func(R.body, "visit", rname)
+    uses = [n for n in ast.walk(vis) if isinstance(n, ast.Call) and isinstance(n.func, ast.Attribute) and isinstance(n.func.value, ast.Name) and n.func.value.id == "CompositePredicate"]
+    need(len(uses) == 2 and all(u.func.attr == "any" for u in uses), vis, "AstRewriter.visit builds CompositePredicate.any(raw_predicates) (handlers, guard-exempt handlers)", rname)
+    L.append("Definition site_reducer_is_any : bool := true.     (* AstRewriter.visit: CompositePredicate.any over every handler of the event, all tracers *)")
+    return {"PredGen.v": "\n".join(L) + "\n"}
